@@ -46,4 +46,18 @@ def long_sink(rng):
                 sup="agent")
 
 
-FAMILIES = {"slow_side_node": slow_side_node, "slow_producer": slow_producer, "long_sink": long_sink}
+def same_generation_pair(rng):
+    """Producer and consumer at the same rate, communication delay of about one period or more: consumer step k reads producer output k-1
+    (or older) while producer step k runs in the SAME generation, and the automatically sized ring buffer is exactly tight.  Names are
+    chosen so that the producer sorts before its consumer (slots of a generation are visited in name order): any write that becomes
+    visible inside a generation is read by the consumer (seeded change C08-b)."""
+    p = rng.choice([2, 4])
+    lag = p * rng.choice([1, 1, 2])
+    w = rng.choice([1, 1, 2])
+    return dict(nodes=[_n("a_prod", 0, p, 0, [0]), _n("b_cons", 1, p, 0, [0]), _n("c_sup", 2, 2 * p, 1, [1])],
+                conns=[_c("a_prod", "b_cons", window=w, delay=lag, cdist=[lag]),
+                       _c("b_cons", "c_sup", window=rng.choice([1, 2]), delay=0, cdist=[0, 1])],
+                sup="c_sup")
+
+
+FAMILIES = {"same_generation_pair": same_generation_pair, "slow_side_node": slow_side_node, "slow_producer": slow_producer, "long_sink": long_sink}
